@@ -126,6 +126,21 @@ async fn run_writer(app: App, k: (usize, usize, bool), key: u64, script: WriterS
                     }
                 }
             }
+            WStep::Write(n) => {
+                use futures::io::AsyncWriteExt;
+                let data = vcore::gen::prf_vec(key, off, *n as usize);
+                app.borrow_mut().dirs.get_mut(&k).unwrap().attempted += *n as u64;
+                match stream.write_all(&data).await {
+                    Ok(()) => {
+                        off += *n as u64;
+                        app.borrow_mut().dirs.get_mut(&k).unwrap().accepted = off;
+                    }
+                    Err(e) => {
+                        result = Some(WriterEnd::Error(err_str(e)));
+                        break;
+                    }
+                }
+            }
             WStep::PauseUs(us) => sleep_us(*us).await,
             WStep::Flush => {
                 if let Err(e) = stream.flush().await {
